@@ -39,13 +39,14 @@ def report(R, cases, viol):
 
 def run(R):
     R.trusted += ["translator harness/cmd/gen_signers (go/ast, syntactic origin classification of bank-call operands, one call level into keepers; unknown operands are emitted as OUnknown and must be audited)",
-                  "the audited site list pinned in Properties/C03.v (13 msg-server sites, 4 end-block sites), each with its reason or finding",
+                  "the audited site list pinned in Properties/C03.v (12 msg-server sites, 4 end-block sites), each with its reason or finding",
                   "harness observers: bank IterateAllBalances and the GetAll* iterators of multistaking / layer2 / collectives / gov identity; custody vote and recovery records read through the keepers",
                   "no axioms: every theorem of Properties/C03.v is closed under the global context"]
     R.assume += ["the effect IR abstracts amounts and state conditions of a handler into message operands/flags; its tie to the code is the regenerated site table plus the correspondence of ten handler models on real transactions",
-                 "claims monitored: pending undelegations, delegator rewards, layer2 user bonds, collective contributor bonds, identity-verification tips; spending-pool entitlements and basket/LP holdings are monitored as balances only",
+                 "claims monitored: pending undelegations, delegator rewards, layer2 user bonds, collective contributor bonds, identity-verification tips, recovery-token holder rewards, accrued spending-pool entitlements (fixed-rate pools, recomputed with the claim formula); basket and LP holdings are bank coins and monitored as balances",
                  "reading: a claim paid out to its own owner, or released by the payee the owner recorded (identity verifier), is not a reduction; a custody reward share paid to a LISTED custodian who votes is part of the owner's request",
-                 "MsgEthereumTx sender forgery (C02) is outside this harness: the generator does not build RLP ethereum transactions"]
+                 "threshold-type authorisations are decided exactly from the observed records (2*held >= supply; approvals*100 >= mode*custodians); the generator sweeps both sides of every boundary (odd/even recovery-token supply via the real burn message, supply 1 and 3, custody (n,mode) pairs around k/n)",
+                 "raw Ethereum transactions: only the forged direction is generated (attacker-signed raw tx naming a victim without / with a key on record)"]
     R.gen("gen_signers", "DebitSites.v")
     R.coq_files(FILES)
     R.coq_property()
